@@ -276,6 +276,13 @@ func (s *stubSession) Fetch(w *imapserver.FetchWriter, numSet imap.NumSet, optio
 		wc.Write(buf)
 		wc.Close()
 	}
+	// echo the requested sections (as a real backend does): their header-field names are client-supplied
+	// strings that travel back through the server's encoder
+	for _, bs := range options.BodySection {
+		wc := rw.WriteBodySection(bs, 3)
+		wc.Write([]byte("abc"))
+		wc.Close()
+	}
 	return rw.Close()
 }
 
